@@ -28,6 +28,29 @@ def n2_counter_read_after(xs):
         k += 1
     return k
 
+def n10_index(xs):
+    out = []
+    for i in range(len(xs)):
+        x = xs[i]
+        out.append((i, x))
+    return out
+
+def n10_resized(xs):
+    out = []
+    for i in range(len(xs)):
+        x = xs[i]
+        if x == 1:
+            xs.append(9)
+        out.append(x)
+    return out
+
+def n11_two(xs, ys):
+    acc = 0
+    for i in range(min(len(xs), len(ys))):
+        a, b = xs[i], ys[i]
+        acc += a * b
+    return acc
+
 def n3_temp(d, v):
     t = v * 2 + 1
     d['a'] = t
@@ -135,6 +158,9 @@ INPUTS = {
     'n1_guard': [([],), ([1, 2, 3, 4, 5, 6, 9],)],
     'n2_counter': [([],), (['a', 'b', 'c'],)],
     'n2_counter_read_after': [([],), ([1, 2, 3],)],
+    'n10_index': [([],), (['a', 'b'],)],
+    'n10_resized': [([1, 2],), ([],)],
+    'n11_two': [([1, 2, 3], [4, 5]), ([], [1])],
     'n3_temp': [({}, 3), ({'a': 0}, -1)],
     'n3_temp_return': [(1,), (5,)],
     'n4_listloop': [([],), ([1, 2, 3],)],
@@ -180,6 +206,12 @@ def run():
     f1 = next(f for f in norm.body if f.name == 'n2_counter_read_after')
     if 'enumerate' in ast.unparse(f1):
         problems.append(('side-condition', 'n2_counter_read_after rewritten', None))
+    f1 = next(f for f in norm.body if f.name == 'n10_resized')
+    if 'range' not in ast.unparse(f1):
+        problems.append(('side-condition', 'n10_resized rewritten', None))
+    f1 = next(f for f in norm.body if f.name == 'n11_two')
+    if 'zip' not in ast.unparse(f1):
+        problems.append(('coverage', 'n11_two not rewritten', None))
     if changed < 8:
         problems.append(('coverage', f'only {changed} of the sample functions were rewritten', None))
     # inliner on value-returning helpers
